@@ -93,9 +93,24 @@ def config(rng, name, criteria=None):
     raise KeyError(name)
 
 
-PALETTE = {  # function filters (Filter): a fixed palette mirrored by the oracles
-    "gt2": lambda v: v > 2, "le3": lambda v: v <= 3, "ne1": lambda v: v != 1, "pos": lambda v: v > 0,
-}
+def _gt2(v):
+    return v > 2
+
+
+def _le3(v):
+    return v <= 3
+
+
+def _ne1(v):
+    return v != 1
+
+
+def _pos(v):
+    return v > 0
+
+
+# function filters (Filter): a fixed palette mirrored by the oracles (named functions: they can be pickled)
+PALETTE = {"gt2": _gt2, "le3": _le3, "ne1": _ne1, "pos": _pos}
 
 
 def build(cfg, conditions=None):
@@ -114,8 +129,9 @@ def build(cfg, conditions=None):
             d = {c: box(v) for c, v in conds}
         else:
             d = {c: v for c, v in conds}
-        return cls(d, ignore_missing_criteria=cfg.get("ignore_missing", False))
-    return cls(**p)
+        return I.variant(cls, {"ignore_missing_criteria": cfg.get("ignore_missing", False)}, [cfg["cls"], repr(conds)],
+                         first_positional=d)
+    return I.variant(cls, p, cfg)
 
 
 def dump(dm):
